@@ -226,7 +226,7 @@ let gen_main n seed0 maxops out =
            e := drain_track (do_tick !e (z_of_int adv))
          end else begin
            let rand_action tgt =
-             if !class_mode then (match rnd 10 with x when x < 5 -> ANext, "next", [] | x when x < 7 -> ASubmit, "submit", [] | x when x < 9 -> ARemove, "remove", [] | _ -> ASkip, "skip", []) else
+             if !class_mode then (match rnd 20 with x when x < 10 -> ANext, "next", [] | x when x < 14 -> ASubmit, "submit", [] | x when x < 17 -> ARemove, "remove", [] | x when x < 19 -> ASkip, "skip", [] | _ -> AAbort, "abort", []) else
              match rnd 100 with
              | x when x < 36 -> ANext, "next", []
              | x when x < 42 -> ASubmit, "submit", []
